@@ -1,4 +1,14 @@
 // C20 ingestion glue for Min (Extend + FromIterator) and Max (FromIterator only), real add, length <= 3.
+// An iterator that promises nothing about its length (size_hint() is the default (0, None), no ExactSizeIterator,
+// no DoubleEndedIterator): glue that consults size hints or iterates from the back must still ingest every item.
+struct Opaque<I>(I);
+impl<I: Iterator> Iterator for Opaque<I> {
+    type Item = I::Item;
+    fn next(&mut self) -> Option<I::Item> {
+        self.0.next()
+    }
+}
+
 #[kani::proof]
 #[kani::unwind(5)]
 fn minmax_ingest_glue() {
@@ -17,10 +27,15 @@ fn minmax_ingest_glue() {
     let br: Min = s.iter().collect();
     let mv: Max = s.iter().cloned().collect();
     let mr: Max = s.iter().collect();
+    let bvo: Min = Opaque(s.iter().cloned()).collect();
+    let bro: Min = Opaque(s.iter()).collect();
+    let mvo: Max = Opaque(s.iter().cloned()).collect();
+    let mro: Max = Opaque(s.iter()).collect();
     kani::cover!(l == 3);
     let same = |p: f64, q: f64| p.to_bits() == q.to_bits() || (p.is_nan() && q.is_nan());
     assert!(same(a.x, bv.x) && same(a.x, br.x));
     assert!(same(m.x, mv.x) && same(m.x, mr.x));
+    assert!(same(a.x, bvo.x) && same(a.x, bro.x) && same(m.x, mvo.x) && same(m.x, mro.x));
     let base: f64 = kani::any();
     let mut e0 = Min { x: base };
     for &x in s {
@@ -31,8 +46,8 @@ fn minmax_ingest_glue() {
     let mut e2 = Min { x: base };
     e2.extend(s.iter());
     let mut e3 = Min { x: base };
-    e3.extend(s[..cut].iter().cloned());
-    e3.extend(s[cut..].iter());
+    e3.extend(Opaque(s[..cut].iter().cloned()));
+    e3.extend(Opaque(s[cut..].iter()));
     assert!(same(e1.x, e0.x) && same(e2.x, e0.x) && same(e3.x, e0.x));
     assert!(same(a.estimate(), a.min()) && same(m.estimate(), m.max()));
 }
